@@ -33,7 +33,9 @@ func vpC18Field(tname string) {
 		vpSetField(to, f, shape, 'a')
 	}
 	if inFrom {
-		vpSetField(from, f, shape, 'k')
+		// a different value than to's whenever the kind offers one (instants, durations and numbers
+		// are concrete per shape; texts and ids differ through the tag)
+		vpSetField(from, f, (shape+1)%n, 'k')
 	}
 	old := vpCloneItem(to)
 	fromSnap := vpCloneItem(from)
@@ -64,7 +66,7 @@ func vpC18All(tname string) {
 			continue
 		}
 		vpSetField(to, f, 0, 'a')
-		vpSetField(from, f, 0, 'k')
+		vpSetField(from, f, 1%vpShapes(fields[f].Kind), 'k')
 	}
 	old := vpCloneItem(to)
 	fromSnap := vpCloneItem(from)
